@@ -77,7 +77,7 @@ pub fn spec(id: &str, tier: Tier) -> Option<CheckSpec> {
         "C10" => {
             let mut s = CheckSpec::new("exploration", tier);
             s.jobs = eng_load::jobs_c10(tier);
-            s.rule = "abstract manifests from three families (B: one build statement with every presence pattern 0/1/2 paths of the five optional sections x 7 path rotations over paths needing `$ ` `$:` `$$` escapes and UTF-8; A: every placement of command/description/depfile/pool/deps/rspfile at rule or build level; S: every sequence of <= L statements over a 14-entry menu incl. include (of files that re-bind names of the includer and add new ones)/subninja/default/pool/comments/bindings), each under the canonical spelling and every spelling with <= D deviations at the spacing / continuation / `$v`-vs-`${v}` choice points (all pairs on a shape subset); the loaded graph dump is compared field by field with a reference loader and with the dump of the canonical spelling. Non-trivial = a non-canonical spelling, or any A/S manifest.".into();
+            s.rule = "abstract manifests from three families (B: one build statement with every presence pattern 0/1/2 paths of the five optional sections x 7 path rotations over paths needing `$ ` `$:` `$$` escapes and UTF-8; A: every placement of command/description/depfile/pool/deps/rspfile at rule or build level; S: every sequence of <= L statements over a 15-entry menu incl. include (of files that re-bind names of the includer and add new ones)/subninja/default/pool/comments/bindings), each under the canonical spelling and every spelling with <= D deviations at the spacing / continuation / `$v`-vs-`${v}` choice points (all pairs on a shape subset); the loaded graph dump is compared field by field with a reference loader and with the dump of the canonical spelling. Non-trivial = a non-canonical spelling, or any A/S manifest.".into();
             s.assumptions = vec![
                 "comments only at column 0 between statements; trailing blanks only where Ninja's grammar and n2 both allow them (build/default lines)".into(),
                 "a final newline ends every file (its absence is C12's business)".into(),
@@ -154,7 +154,7 @@ pub fn spec(id: &str, tier: Tier) -> Option<CheckSpec> {
             if id == "C17" {
                 s.jobs.extend(eng_sched::jobs("C17", tier));
             }
-            if id == "C09" || id == "C02" || id == "C03" {
+            if id == "C09" || id == "C02" || id == "C03" || id == "C08" {
                 s.jobs.extend(eng_proc::jobs(id, tier));
             }
             s.rule = format!("exhaustive walk of the history tree of the templates {:?}: a history alternates edit sets (every single edit of the template's alphabet: touch each source/header, delete/touch each output and intermediate, delete a header, delete a declared source, change what a compiler reports, replace the manifest by each variant / let the generator write each variant; thorough: also all compatible pairs in the first round) and invocations (build default / each single target / every completion order at -j2 / build with each failing command, with -k1 / n2 killed after 1-2 completions leaving fresh garbage / restat) to depth {}; each invocation runs the real loader, db and scheduler on a real tree under the scripted executor, and is judged against the reference model: everything that ran was dirty, after success everything wanted is clean and carries the content tag a from-scratch evaluation gives, an identical repeat does nothing. States = history nodes, transitions = invocations, non-trivial = invocations judged without violation after a non-empty history step.", s.jobs.iter().map(|j| j.0.clone()).collect::<Vec<_>>(), tier.pick("2 (round two: builds and restat only), from the never-built and from the fully built tree", "2 (full alphabet in both rounds; plus all compatible edit pairs in round one) and 3 (single edits, reduced invocation alphabets), from the never-built and from the fully built tree"));
